@@ -1541,6 +1541,17 @@ impl Attr for XmlAttr {
 
 impl AttrMut for XmlAttr {}
 
+impl XmlAttr {
+    /// The element this attribute is attached to (its parent in the XPath data model).
+    pub fn owner_element(&self) -> Option<XmlElement> {
+        self.attribute
+            .borrow()
+            .owner_element()
+            .ok()
+            .map(XmlElement::from)
+    }
+}
+
 impl Node for XmlAttr {
     fn node_name(&self) -> String {
         self.name()
